@@ -639,7 +639,19 @@ func genRouter(profile string) func(rng *rand.Rand, n int, tier string, emit fun
 							m, p = "GET"+t, ""
 						}
 					}
-					ops = append(ops, T("req", X(m), X(p), T("hdrs", g.reqHeaders()...)))
+					hs := g.reqHeaders()
+					ops = append(ops, T("req", X(m), X(p), T("hdrs", hs...)))
+					if (profile == "C10" || profile == "C09") && rng.Intn(4) == 0 {
+						// the same request again under another spelling of the path, and then without its headers:
+						// an answer must not depend on what an earlier request left behind
+						alt := "/" + p
+						if rng.Intn(3) == 0 {
+							alt = strings.TrimLeft(p, "/")
+						}
+						ops = append(ops, T("req", X(m), X(alt), T("hdrs", hs...)))
+						ops = append(ops, T("req", X(m), X(alt), T("hdrs")))
+						ops = append(ops, T("req", X(m), X(p), T("hdrs")))
+					}
 				}
 			}
 			var res []*Sx
